@@ -216,6 +216,25 @@ def feedTrace (side : Side) (maxLen : Int) (st : Conn) (n : Nat) :
     let r' := feedTrace side maxLen r.1 n' cs
     (r'.1, r.2 ++ r'.2.1, (n', r.1.status) :: r'.2.2)
 
+/-- `connection.ReConnect` (client) / the accept goroutine of `tcpHandler.Handle` (server) start a
+NEW activation of the receive loop for every connection: `go c.recv(c.conn, connDone)` /
+`t.recv(cf)`.  The reassembly buffer is a local of that activation (`var currBuffer []byte`), so
+the new loop starts from the empty buffer and `open`, whatever the previous activation of the
+same `TarsClient` / `tcpHandler` still held when its connection ended (an incomplete packet after
+EOF, a reset or a close; the rest after a protocol error).  Neither loop reads or writes any other
+reassembly state (the extractor checks that the argument of `ParsePackage` is such a local). -/
+def reconnect (_prev : Conn) : Conn := Conn.init
+
+/-- the history of one `TarsClient` (or of one listener): a sequence of connections, each a
+sequence of successful reads; a connection ends (EOF, reset, close, protocol error) wherever its
+chunk list ends, possibly in the middle of a packet.  Per connection: the final state of its
+receive loop and the packets it delivered. -/
+def session (side : Side) (maxLen : Int) : Conn → List (List Bytes) → List (Conn × List Bytes)
+  | _, [] => []
+  | prev, cs :: rest =>
+    let r := feedAll side maxLen (reconnect prev) cs
+    r :: session side maxLen r.1 rest
+
 /-- the sender's framing (`RequestPack`, `req2Byte`, `rsp2Byte`): a 4-byte big-endian length that
 counts itself, then the body -/
 def frame (body : Bytes) : Bytes := be 4 (body.length + 4) ++ body
